@@ -274,6 +274,9 @@ class Evaluator:
             except TypeError:
                 return ('free', u(node))
             return r if isinstance(op, ast.In) else not r
+        if isinstance(op, (ast.In, ast.NotIn)) and isinstance(a, dict) and isinstance(b, tuple) and not is_sym_bool(b):
+            r = any(x is a for x in b)
+            return r if isinstance(op, ast.In) else not r
         if type(op) not in _CMP:
             return ('free', u(node))
         o = _CMP[type(op)]
